@@ -27,20 +27,21 @@ CODES = {
     4: "the vault saw Update* calls for a plan that must stay untouched",
     5: "something other than states/reason changed in a plan that must not be resumed",
     6: "observation list and store differ in length",
+    7: "a live Running plan was not resumed but closed with reason ExceedRecovery",
     9: "inconclusive: the age boundary fell between the clock readings before and after coercion.New",
 }
 
 
 def run(ctx):
     ctx.static_and_proofs("select")
-    n = 240 if ctx.tier == "quick" else 2400
-    args = ["-n", str(n)]
+    n = 180 if ctx.tier == "quick" else 2400
+    args = ["-n", str(n)] + (["-big"] if ctx.tier == "thorough" else [])
     only = None
     if ctx.replay:
         rp = json.load(open(ctx.replay))
         only = rp.get("input", {}).get("index")
         if only is not None:
-            args = ["-n", str(int(only) + 1), "-only", str(only)]
+            args = ["-n", str(int(only) + 1), "-only", str(only)] + (["-big"] if rp.get("tier") == "thorough" else [])
             ctx.env["VERIF_SEED"] = str(rp.get("seed", ctx.seed))
     cases = ctx.harness("c11", args, timeout=3000)
     if cases is None:
@@ -79,6 +80,11 @@ def run(ctx):
         # property monitor false first (a concrete violation), smallest store first
         bad.sort(key=lambda x: (not x[3], x[0]["dist"]["plans"]))
         c, plan_obs, why, monfalse = bad[0]
+        if plan_obs and plan_obs.get("status") == "Running" and plan_obs.get("after_status") == "Failed" and plan_obs.get("running_after", 0) > 0:
+            why += " -- aged plan closed incompletely: the plan row is Failed but %d object(s) in it are still Running in the store (%d Update* call(s) seen)" % (
+                plan_obs["running_after"], plan_obs.get("vault_writes", 0))
+        elif plan_obs and plan_obs.get("status") == "Running" and plan_obs.get("after_status") == "Failed" and plan_obs.get("after_reason") != "FRExceedRecovery":
+            why += " -- aged plan closed with stored reason %s instead of FRExceedRecovery" % plan_obs.get("after_reason")
         ctx.violation(dict(
             kind="recovery-selection-differs" if not monfalse else "property-violated",
             why=why, monitor_false=monfalse, case=c["id"], input=c["input"], dist=c["dist"], offending_plan=plan_obs,
